@@ -439,6 +439,28 @@ def model_parse(hexes):
     return model
 
 
+_SENT = None
+
+
+def grammar_sentences():
+    """Whole responses read off the grammar as it is translated now (coq/Synth.v, extracted into the driver): for every
+    parser function reachable from the top, sentences that between them take every alternative and repetition shape
+    written in that function.  They follow the code, so they also reach rules the harness's generators have never
+    heard of.  A search aid only: returns [] when the extracted driver is not available."""
+    global _SENT
+    if _SENT is None:
+        _SENT = []
+        try:
+            okd, _ = build_driver()
+            if okd:
+                rc, out = _run_driver_one(["sentences"], "", 600)
+                if rc == 0:
+                    _SENT = sorted(set(l for l in out.split("\n") if l and len(l) % 2 == 0))
+        except Exception:
+            _SENT = []
+    return _SENT
+
+
 def corpus_lines(prop):
     d = os.path.join(ROOT, "corpus", prop)
     lines = []
